@@ -164,6 +164,8 @@ pub enum Act {
     TryResponse,
     Read(usize),
     Proceed,
+    /// SendRequest state: the accessors method / uri / version / headers_map (the last runs the request analysis early)
+    HeadQuery,
     /// Redirect state: as_new_flow(policy) on the real flow, then a complete second exchange on the new flow
     Follow(bool),
 }
@@ -181,6 +183,7 @@ impl Act {
             Act::TryResponse => json!(["try_response"]),
             Act::Read(b) => json!(["read", b]),
             Act::Proceed => json!(["proceed"]),
+            Act::HeadQuery => json!(["headers_map"]),
             Act::Follow(p) => json!(["as_new_flow", if *p { "SameHost" } else { "Never" }]),
         }
     }
@@ -203,6 +206,7 @@ impl Act {
             "try_response" => Act::TryResponse,
             "read" => Act::Read(us(&v[1])),
             "proceed" => Act::Proceed,
+            "headers_map" => Act::HeadQuery,
             "as_new_flow" => Act::Follow(v[1].as_str() == Some("SameHost")),
             o => return Err(format!("unknown act {}", o)),
         })
@@ -970,6 +974,9 @@ impl Sys for Exch {
                     for &b in &m.head_bufs {
                         v.push(Act::HeadWrite(b));
                     }
+                    if self.head_out == 0 {
+                        v.push(Act::HeadQuery);
+                    }
                 }
             }
             AnyFlow::Await100(f) => {
@@ -1071,6 +1078,14 @@ impl Sys for Exch {
                 Ok(())
             }
             Act::HeadWrite(b) => self.step_head_write(*b),
+            Act::HeadQuery => {
+                let AnyFlow::SendRequest(f) = &mut self.flow else { unreachable!() };
+                let _ = (f.method().clone(), f.uri().clone(), f.version());
+                match f.headers_map() {
+                    Ok(_) => Ok(()),
+                    Err(e) => Err((self.k("head-write", "query-fails"), format!("headers_map() failed on a valid request: {:?}", e))),
+                }
+            }
             Act::BodyWrite(i, b) => self.step_body_write(*i, *b),
             Act::Direct(k) => self.step_direct(*k),
             Act::Read100 => self.step_read100(),
